@@ -4,6 +4,7 @@ Proofs/NormalEqFinal.lean — clause C04.e at the inversion level: for every ord
 matrix, entry by entry.
 -/
 import Proofs.NormalEqCurvWT
+import Proofs.NormalEqMirror
 
 namespace Model
 
@@ -13,14 +14,18 @@ open Spec
 
 /-! ### `curvature_matrix_mirrored_from` -/
 
-theorem mirrored_spec (C : Mat α) :
-    (Impl.mirrored C).r = C.r ∧ (Impl.mirrored C).c = C.c ∧
-    ∀ i j, i < C.r → j < C.c → (Impl.mirrored C).get i j
+theorem mirrored_spec (C : Mat α) (n : Nat) (hr : C.r = n) (hc : C.c = n) :
+    (Impl.mirrored C).r = n ∧ (Impl.mirrored C).c = n ∧
+    ∀ i j, i < n → j < n → (Impl.mirrored C).get i j
       = if C.get (min i j) (max i j) ≠ 0 then C.get (min i j) (max i j)
         else C.get (max i j) (min i j) := by
-  refine ⟨rfl, rfl, fun i j hi hj => ?_⟩
-  unfold Impl.mirrored
-  rw [Mat.get_ofFn, if_pos ⟨hi, hj⟩]
+  refine ⟨?_, ?_, fun i j hi hj => mirroredLoop_get C n hr hc i j hi hj⟩
+  · unfold Impl.mirrored
+    rw [forYX_eq_foldl, hr, hc]
+    exact (mirFold_untouched C n (pixels n n) (Mat.zeros n n) rfl rfl).1
+  · unfold Impl.mirrored
+    rw [forYX_eq_foldl, hr, hc]
+    exact (mirFold_untouched C n (pixels n n) (Mat.zeros n n) rfl rfl).2.1
 
 /-- if every entry of `C` is either the target value or an unwritten zero whose transposed entry is the
     target value, mirroring yields the (symmetric) target -/
@@ -28,7 +33,7 @@ theorem mirrored_eq_target (C : Mat α) (n : Nat) (hr : C.r = n) (hc : C.c = n) 
     (hsym : ∀ a b, a < n → b < n → T a b = T b a)
     (hC : ∀ a b, a < n → b < n → C.get a b = T a b ∨ (C.get a b = 0 ∧ C.get b a = T b a))
     (a b : Nat) (ha : a < n) (hb : b < n) : (Impl.mirrored C).get a b = T a b := by
-  rw [(mirrored_spec C).2.2 a b (by omega) (by omega)]
+  rw [(mirrored_spec C n hr hc).2.2 a b ha hb]
   have hlo : min a b < n := by omega
   have hhi : max a b < n := by omega
   have hT : T a b = T (min a b) (max a b) := by
@@ -259,7 +264,7 @@ theorem curvature_agree (ds : Dataset α) (objs : List (LinObj α)) (hadm : Admi
     simp only [Mat.ofFn_c]
     exact operatedList_width ds objs
   have hBr : (Impl.operatedMappingMatrix ds objs).r = (Impl.nativeForSlim ds.mask).length := rfl
-  have hM := mirrored_spec (assembledWT ds objs)
+  have hM := mirrored_spec (assembledWT ds objs) (Impl.totalParams objs) hA.1 hA.2
   have hmir : ∀ a b, a < Impl.totalParams objs → b < Impl.totalParams objs →
       (Impl.mirrored (assembledWT ds objs)).get a b
         = normalBlock (Impl.operatedMappingMatrix ds objs) (Impl.operatedMappingMatrix ds objs)
@@ -275,9 +280,9 @@ theorem curvature_agree (ds : Dataset α) (objs : List (LinObj α)) (hadm : Admi
   · rw [if_pos hn]
     obtain ⟨d1, d2, d3⟩ := addToDiag_spec (Impl.mirrored (assembledWT ds objs)) value
       (Impl.noRegIndexList objs)
-    refine ⟨by rw [d1, hM.1, hA.1, hmap.1, hBc], by rw [d2, hM.2.1, hA.2, hmap.2.1, hBc],
+    refine ⟨by rw [d1, hM.1, hmap.1, hBc], by rw [d2, hM.2.1, hmap.2.1, hBc],
       fun a b ha hb => ?_⟩
-    rw [d3 a b (by rw [hM.1, hA.1]; exact ha) (by rw [hM.2.1, hA.2]; exact hb), hmir a b ha hb,
+    rw [d3 a b (by rw [hM.1]; exact ha) (by rw [hM.2.1]; exact hb), hmir a b ha hb,
       hmap.2.2 a b (by rw [hBc]; exact ha) (by rw [hBc]; exact hb), if_pos rfl, hBr]
     rfl
   · rw [if_neg hn]
@@ -285,7 +290,7 @@ theorem curvature_agree (ds : Dataset α) (objs : List (LinObj α)) (hadm : Admi
       cases hl : Impl.noRegIndexList objs with
       | nil => rfl
       | cons x l => rw [hl] at hn; simp at hn
-    refine ⟨by rw [hM.1, hA.1, hmap.1, hBc], by rw [hM.2.1, hA.2, hmap.2.1, hBc],
+    refine ⟨by rw [hM.1, hmap.1, hBc], by rw [hM.2.1, hmap.2.1, hBc],
       fun a b ha hb => ?_⟩
     rw [hmir a b ha hb, hmap.2.2 a b (by rw [hBc]; exact ha) (by rw [hBc]; exact hb), if_pos rfl,
       hnil, hBr]
